@@ -32,14 +32,21 @@ def union_routine(prog: Program, direction: str):
 
 
 def suppress_sets(prog, f):
-    """Exception names of the contextlib.suppress wrapping the member call, per path."""
+    """Exception names of the handler (contextlib.suppress or try/except) around the member call, per distinct set."""
     out = []
     for p in P.paths_of(prog, f):
-        for e in p.events:
-            if e[0] == "enter" and T.is_call_to(e[1], "contextlib.suppress"):
-                names = tuple(T.refname(a) or T.show(a) for a in e[1][2])
-                if names not in out:
-                    out.append(names)
+        for i, e in enumerate(p.events):
+            names = P.handler_names(e)
+            if names is None:
+                continue
+            # the abandoned attempt must be the member call
+            prev = p.events[i - 1] if i else None
+            if prev is not None and prev[0] == "attempt":
+                a = K.applied_slot(prev[1])
+                if a and a[0] == "each":
+                    t = tuple(names)
+                    if t not in out:
+                        out.append(t)
     return out
 
 
@@ -216,21 +223,8 @@ def run(prog: Program, rep: Report, tier: str):
             r08_3_4(prog, rep, d, c, slot)
         f = C.call_of(prog, c)
         ss = suppress_sets(prog, f)
-        # the member call must sit inside the suppress body
-        inside = False
-        for p in P.paths_of(prog, f):
-            depth = 0
-            for e in p.events:
-                if e[0] == "enter" and T.is_call_to(e[1], "contextlib.suppress"):
-                    depth += 1
-                elif e[0] == "exit" and T.is_call_to(e[1], "contextlib.suppress"):
-                    depth -= 1
-                elif e[0] in ("assign", "attempt", "eval") and depth > 0:
-                    tm = e[2] if e[0] == "assign" else e[1]
-                    a = K.applied_slot(tm)
-                    if a and a[0] == "each":
-                        inside = True
-        rep.check(inside and len(ss) == 1, "R08.4", c.qualname, f.loc, "the member call runs inside one contextlib.suppress(...)", "the member call is not wrapped by a single contextlib.suppress", detail="suppress-wrap")
+        # the member call must run under exactly one handler set
+        rep.check(len(ss) == 1, "R08.4", c.qualname, f.loc, "the member call runs under one handler (contextlib.suppress or try/except) whose escape continues with the next member", "the member call is not wrapped by a handler that lets the loop continue", detail="suppress-wrap")
         sups[d] = set(ss[0]) if ss else set()
     r08_6(prog, rep)
     if len(sups) == 2:
